@@ -17,7 +17,7 @@ FC_TYPES = ['u8', 'i8', 'u16', 'i16', 'u32', 'i32', 'u64', 'i64', 'f32', 'f64']
 
 @st.composite
 def daqmx_file(draw, max_segments=3, max_channels=4, max_buffers=3, max_len=5, max_chunks=3, max_width=16,
-               be=True, fixed_be=None):
+               be=True, fixed_be=None, carry=True):
     nch = draw(st.integers(1, max_channels))
     # channel definitions that must stay fixed over the file: kind, channel type, scaler (id, type)
     chans = []
@@ -49,9 +49,17 @@ def daqmx_file(draw, max_segments=3, max_channels=4, max_buffers=3, max_len=5, m
                         eff_entries=[e for e in (prev.get('eff_entries') or prev['entries']) if e.get('hdr') == 'daqmx'])
             segs.append(cont)
             continue
-        nbuf = draw(st.integers(1, max_buffers))
-        widths = [draw(st.integers(1, max_width)) for _ in range(nbuf)]
-        lens = [draw(st.integers(1, max_len)) for _ in range(nbuf)]
+        # "carry" segments have a metadata block WITHOUT kTocNewObjList: the previous segment's objects stay in force, the
+        # listed channels are re-declared (other scaler offsets / buffers within the same buffer geometry) or added
+        carried = carry and si > 0 and 'nom_lens' in segs[-1] and draw(st.integers(0, 2)) == 0
+        if carried:
+            widths = list(segs[-1]['widths'])
+            lens = list(segs[-1]['nom_lens'])
+            nbuf = len(widths)
+        else:
+            nbuf = draw(st.integers(1, max_buffers))
+            widths = [draw(st.integers(1, max_width)) for _ in range(nbuf)]
+            lens = [draw(st.integers(1, max_len)) for _ in range(nbuf)]
         act = draw(st.lists(st.sampled_from(chans), min_size=1, max_size=nch, unique_by=lambda c: c['path']))
         entries = []
         active = []
@@ -86,6 +94,7 @@ def daqmx_file(draw, max_segments=3, max_channels=4, max_buffers=3, max_len=5, m
             ok_entries.append(ent)
         if not ok_entries:
             # fall back: one byte-wide scaler always fits
+            carried = False
             c = chans[0]
             continue_seg = False
             b = 0
@@ -101,7 +110,13 @@ def daqmx_file(draw, max_segments=3, max_channels=4, max_buffers=3, max_len=5, m
                                'props': [['NI_Number_Of_Scales', 'u32', len(scalers)]] if c['chan_type'] == 'raw' else []})
         for ent in ok_entries:
             ent['widths'] = list(widths)
-        used = set(s['buf'] for ent in ok_entries for s in ent['scalers'])
+        eff = None
+        if carried:
+            new = {e['path']: e for e in ok_entries}
+            prev_eff = seg_entries(segs[-1])
+            eff = [new.get(e['path'], e) for e in prev_eff] + [e for e in ok_entries if e['path'] not in
+                                                                 set(x['path'] for x in prev_eff)]
+        used = set(s['buf'] for ent in (eff or ok_entries) for s in ent['scalers'])
         # buffers nobody uses hold no rows
         eff_lens = [lens[b] if b in used else 0 for b in range(nbuf)]
         nchunks = draw(st.integers(1, max_chunks))
@@ -110,8 +125,8 @@ def daqmx_file(draw, max_segments=3, max_channels=4, max_buffers=3, max_len=5, m
             buffers.append([draw(st.binary(min_size=eff_lens[b] * widths[b], max_size=eff_lens[b] * widths[b]))
                             for b in range(nbuf)])
         seg_be = (draw(st.booleans()) if fixed_be is None else fixed_be) if be else False
-        active_entries = list(ok_entries)
-        if si > 0:
+        active_entries = list(eff or ok_entries)
+        if si > 0 and not carried:
             # channels defined in earlier segments may be re-listed as having no data in this one
             seen_before = []
             for prev in segs:
@@ -122,10 +137,13 @@ def daqmx_file(draw, max_segments=3, max_channels=4, max_buffers=3, max_len=5, m
             for pth in seen_before:
                 if pth not in here and draw(st.booleans()):
                     ok_entries = ok_entries + [{'path': pth, 'hdr': 'nodata'}]
-        segs.append({'be': seg_be, 'interleaved': False, 'version': 4713, 'meta': True, 'newlist': True, 'daqmx': True,
-                     'entries': ok_entries, 'active': [[e['path'], 'daqmx', e['n']] for e in active_entries],
-                     'nchunks': nchunks, 'buffers': buffers, 'buf_lens': eff_lens, 'widths': list(widths),
-                     'toc_extra': (1 << 5) if draw(st.integers(0, 2)) == 0 else 0})
+        seg = {'be': seg_be, 'interleaved': False, 'version': 4713, 'meta': True, 'newlist': not carried, 'daqmx': True,
+               'entries': ok_entries, 'active': [[e['path'], 'daqmx', e['n']] for e in active_entries],
+               'nchunks': nchunks, 'buffers': buffers, 'buf_lens': eff_lens, 'widths': list(widths), 'nom_lens': list(lens),
+               'toc_extra': (1 << 5) if draw(st.integers(0, 2)) == 0 else 0}
+        if carried:
+            seg['eff_entries'] = eff
+        segs.append(seg)
     return {'segments': segs}
 
 
